@@ -23,6 +23,8 @@ const SETTINGS_ERROR: u64 = 0x109;
 const CLOSED_CRITICAL: u64 = 0x104;
 const MISSING_SETTINGS: u64 = 0x10a;
 const HORIZON: usize = 6000;
+/// turns the scripted peer lets pass before the late part of its bytes (every other task runs until it waits)
+const LATE_YIELDS: usize = 40;
 
 #[derive(Clone, Copy, Debug, PartialEq, Eq)]
 pub enum Where {
@@ -35,6 +37,9 @@ pub enum Mode {
     Whole,
     PerByte,
     Explore,
+    /// the first k faulty bytes arrive with what precedes them; the rest (and the end of the stream) only after the
+    /// endpoint has consumed all of that and is waiting
+    Late(usize),
 }
 
 #[derive(Clone, Debug)]
@@ -46,6 +51,9 @@ pub struct Case {
     pub fin: bool,
     /// request stream only: a valid message head precedes the faulty bytes (else they come first)
     pub with_head: bool,
+    /// request stream only: a whole message (head, DATA, trailers) precedes the faulty bytes, which the endpoint
+    /// meets when it looks behind the trailers
+    pub after_trailers: bool,
     pub mode: Mode,
     /// close codes the reference accepts (first = the one the property names)
     pub accept: Vec<u64>,
@@ -78,7 +86,7 @@ pub fn execute(case: &Case, seed: u64) -> Outcome {
             cfg.allow_delay = true;
             cfg.focus = Some(vec![target]);
         }
-        Mode::Whole => {}
+        Mode::Whole | Mode::Late(_) => {}
     }
     let net = Net::new(cfg);
     let mut ex = Exec::new();
@@ -138,7 +146,14 @@ pub fn execute(case: &Case, seed: u64) -> Outcome {
             yield_now().await;
             match case.place {
                 Where::Control => {
-                    net.raw_write(peer, ctrl, &case.bytes);
+                    let early = if let Mode::Late(k) = case.mode { k.min(case.bytes.len()) } else { case.bytes.len() };
+                    net.raw_write(peer, ctrl, &case.bytes[..early]);
+                    if let Mode::Late(_) = case.mode {
+                        for _ in 0..LATE_YIELDS {
+                            yield_now().await;
+                        }
+                        net.raw_write(peer, ctrl, &case.bytes[early..]);
+                    }
                     if case.fin {
                         net.raw_fin(peer, ctrl);
                     }
@@ -159,9 +174,23 @@ pub fn execute(case: &Case, seed: u64) -> Outcome {
                     // a valid message head first, so that the faulty frame is met in the body phase
                     let head = if case.with_head { headers_frame(if peer == CLIENT { REQ_SECTION } else { RESP_SECTION }) } else { Vec::new() };
                     let mut all = head.clone();
-                    all.extend_from_slice(&case.bytes);
-                    net.raw_write(peer, 0, &all);
-                    net.raw_mark(peer, 0, case.bytes.len());
+                    if case.after_trailers {
+                        all.extend(rf::frame(rf::DATA, b"fada"));
+                        all.extend(headers_frame(TRAILER_SECTION));
+                    }
+                    if let Mode::Late(k) = case.mode {
+                        let early = k.min(case.bytes.len());
+                        all.extend_from_slice(&case.bytes[..early]);
+                        net.raw_write(peer, 0, &all);
+                        for _ in 0..LATE_YIELDS {
+                            yield_now().await;
+                        }
+                        net.raw_write(peer, 0, &case.bytes[early..]);
+                    } else {
+                        all.extend_from_slice(&case.bytes);
+                        net.raw_write(peer, 0, &all);
+                        net.raw_mark(peer, 0, case.bytes.len());
+                    }
                     if case.fin {
                         net.raw_fin(peer, 0);
                     }
@@ -185,7 +214,7 @@ pub fn judge(case: &Case, o: &Outcome) -> Vec<(String, String)> {
 pub fn judge_p(pfx: &str, case: &Case, o: &Outcome) -> Vec<(String, String)> {
     let role = if case.server { "server" } else { "client" };
     let place = if case.place == Where::Request { "request" } else { "control" };
-    let ctx = format!("{role} {place} stream{}, bytes {} {} [{}], {:?}", if case.place == Where::Request && !case.with_head { " (first frame)" } else { "" }, hex(&case.bytes), if case.fin { "+FIN" } else { "(open)" }, case.why, case.mode);
+    let ctx = format!("{role} {place} stream{}, bytes {} {} [{}], {:?}", if case.place == Where::Request && !case.with_head { " (first frame)" } else if case.after_trailers { " (behind the trailers)" } else { "" }, hex(&case.bytes), if case.fin { "+FIN" } else { "(open)" }, case.why, case.mode);
     let mut out = Vec::new();
     for p in &o.panics {
         out.push((format!("{pfx}:{role}:{place}:panic@{}", explore::panics::short_loc(p)), format!("{ctx}: {p}")));
@@ -200,11 +229,11 @@ pub fn judge_p(pfx: &str, case: &Case, o: &Outcome) -> Vec<(String, String)> {
     let name = |c: u64| code_name(c);
     match o.close_codes.as_slice() {
         [] => out.push((
-            format!("{pfx}:{role}:{place}:{}{}:not-reported", case.why, if case.with_head { "" } else { ":first-frame" }),
+            format!("{pfx}:{role}:{place}:{}{}:not-reported", case.why, if case.after_trailers { ":behind-trailers" } else if case.with_head { "" } else { ":first-frame" }),
             format!("{ctx}: the connection was never closed (expected {}); driver {:?}, request {:?}", name(case.accept[0]), o.driver, o.msg.as_ref().map(|m| (m.head.clone(), m.body_end.clone(), m.trailers.clone(), m.stage.clone()))),
         )),
         [c] if case.accept.contains(c) => {}
-        [c] => out.push((format!("{pfx}:{role}:{place}:{}{}:code={}", case.why, if case.with_head { "" } else { ":first-frame" }, name(*c)), format!("{ctx}: closed with {} ({c:#x}), expected {}", name(*c), case.accept.iter().map(|c| name(*c)).collect::<Vec<_>>().join(" or ")))),
+        [c] => out.push((format!("{pfx}:{role}:{place}:{}{}:code={}", case.why, if case.after_trailers { ":behind-trailers" } else if case.with_head { "" } else { ":first-frame" }, name(*c)), format!("{ctx}: closed with {} ({c:#x}), expected {}", name(*c), case.accept.iter().map(|c| name(*c)).collect::<Vec<_>>().join(" or ")))),
         many => {
             if !many.iter().all(|c| *c == many[0]) || !case.accept.contains(&many[0]) {
                 out.push((format!("{pfx}:{role}:{place}:{}:close-codes-differ", case.why), format!("{ctx}: close() called with {many:x?}")));
@@ -235,11 +264,21 @@ pub fn cases(tier: Tier) -> Vec<Case> {
     let mut out = Vec::new();
     let modes: &[Mode] = &[Mode::Whole, Mode::PerByte, Mode::Explore];
     let mut push = |server: bool, place: Where, bytes: Vec<u8>, fin: bool, accept: Vec<u64>, why: &'static str| {
-        for &mode in modes {
-            out.push(Case { server, place, bytes: bytes.clone(), fin, with_head: true, mode, accept: accept.clone(), why });
+        let mut modes: Vec<Mode> = modes.to_vec();
+        modes.extend((0..=bytes.len()).map(Mode::Late));
+        for &mode in &modes {
+            out.push(Case { server, place, bytes: bytes.clone(), fin, with_head: true, after_trailers: false, mode, accept: accept.clone(), why });
+            // ... and behind a complete message with trailers (frames of a known type are then also out of place)
+            if place == Where::Request && why.ends_with("cut-by-fin") && !why.starts_with("second") && !why.starts_with("padded") {
+                let mut accept = accept.clone();
+                if why.starts_with("data") || why.starts_with("headers") {
+                    accept.push(FRAME_UNEXPECTED);
+                }
+                out.push(Case { server, place, bytes: bytes.clone(), fin, with_head: true, after_trailers: true, mode, accept, why });
+            }
             // the same faulty bytes as the very first thing on the request stream
             if place == Where::Request && why.ends_with("cut-by-fin") && !why.starts_with("data") && !why.starts_with("second") && !why.starts_with("padded") {
-                out.push(Case { server, place, bytes: bytes.clone(), fin, with_head: false, mode, accept: accept.clone(), why });
+                out.push(Case { server, place, bytes: bytes.clone(), fin, with_head: false, after_trailers: false, mode, accept: accept.clone(), why });
             }
         }
     };
@@ -296,8 +335,8 @@ pub fn cases(tier: Tier) -> Vec<Case> {
 }
 
 fn case_json(c: &Case, choices: &[u32], seed: u64) -> Value {
-    json!({"seam":2,"server":c.server,"place": if c.place == Where::Request {"request"} else {"control"},"bytes":hex(&c.bytes),"fin":c.fin,"with_head":c.with_head,
-        "mode": match c.mode { Mode::Whole => "whole", Mode::PerByte => "per-byte", Mode::Explore => "explore" },
+    json!({"seam":2,"server":c.server,"place": if c.place == Where::Request {"request"} else {"control"},"bytes":hex(&c.bytes),"fin":c.fin,"with_head":c.with_head,"after_trailers":c.after_trailers,
+        "mode": match c.mode { Mode::Whole => "whole".to_string(), Mode::PerByte => "per-byte".to_string(), Mode::Explore => "explore".to_string(), Mode::Late(k) => format!("late:{k}") },
         "accept": c.accept, "why": c.why, "choices": choices, "seed": seed})
 }
 
@@ -309,9 +348,11 @@ fn case_from_json(r: &Value) -> Case {
         bytes: explore::unhex(r["bytes"].as_str().unwrap()),
         fin: r["fin"].as_bool().unwrap(),
         with_head: r["with_head"].as_bool().unwrap_or(true),
+        after_trailers: r["after_trailers"].as_bool().unwrap_or(false),
         mode: match r["mode"].as_str().unwrap() {
             "whole" => Mode::Whole,
             "per-byte" => Mode::PerByte,
+            m if m.starts_with("late:") => Mode::Late(m[5..].parse().unwrap()),
             _ => Mode::Explore,
         },
         accept: r["accept"].as_array().unwrap().iter().map(|x| x.as_u64().unwrap()).collect(),
@@ -336,7 +377,7 @@ pub fn run_into(args: &Args, total: &mut Acc) {
             || execute(case, seed),
             |e, o| {
                 outcomes.push(explore::fnv_str(&format!("{:?}{:?}", o.close_codes, o.driver)));
-                if e.cost > 0 || case.mode == Mode::PerByte {
+                if e.cost > 0 || case.mode == Mode::PerByte || matches!(case.mode, Mode::Late(_)) {
                     let mut f = Fnv::new();
                     f.u64(key);
                     for c in &e.choices {
@@ -378,6 +419,16 @@ pub fn replay(r: &Value) -> i32 {
 pub fn replay_p(pfx: &str, r: &Value) -> i32 {
     let case = case_from_json(r);
     let seed = r["seed"].as_u64().unwrap_or(0);
+    if let Some(b) = r["explore_bound"].as_u64() {
+        // diagnostic: list every execution of this case up to the bound
+        let caps = Caps { max_executions: 60_000, ..Caps::default() };
+        let st = dfs::explore(b as usize, &caps, || execute(&case, seed), |e, o| {
+            let labels: Vec<String> = e.trace.iter().enumerate().filter(|(_, c)| c.pick != 0).map(|(i, c)| format!("{}#{}={}/{}", c.label, i, c.pick, c.n)).collect();
+            println!("cost={} {:?} -> close {:x?} trailers {:?} viol {:?}", e.cost, labels, o.close_codes, o.msg.as_ref().map(|m| m.trailers.clone()), judge_p(pfx, &case, &o).iter().map(|v| v.0.clone()).collect::<Vec<_>>());
+        });
+        println!("executions {}", st.executions);
+        return 0;
+    }
     let choices: Vec<u32> = r["choices"].as_array().map(|a| a.iter().map(|x| x.as_u64().unwrap() as u32).collect()).unwrap_or_default();
     let (o, _, d) = dfs::replay(&choices, || execute(&case, seed));
     let (o2, _, _) = dfs::replay(&choices, || execute(&case, seed));
